@@ -161,6 +161,27 @@ def run(ctx, idx):
         ok = any(tnode not in c.reachable([m for m, l in g.succ if l == "false"], avoid={g}) for g in guards)
         ctx.ob("C20.d", "%s::result-under-finished-guard" % rp.key, K.rel(rp), tnode.line, ok, "`.result` read only when the producer has finished (no execution is triggered by cleaning)" if ok else
                "cleaning reads `.result` of an unfinished command: validation executes the model")
+    # the callers of clean keep the raw argument too: an Argument's value is assigned in its constructor only
+    argcls = idx.cls("mpilot.arguments", "Argument")
+    fields = set()
+    if argcls is not None and "__init__" in argcls.methods:
+        sn0 = K.self_name(argcls.methods["__init__"])
+        fields = {n.attr for n in own_nodes(argcls.methods["__init__"].node) if isinstance(n, ast.Attribute) and isinstance(n.ctx, ast.Store) and isinstance(n.value, ast.Name) and n.value.id == sn0}
+    if "value" not in fields:
+        raise AnalysisError("C20.d: Argument no longer keeps the raw value in a field assigned by its constructor")
+    n_arg = 0
+    for mod, f, n in K.scoped_nodes(idx):
+        if f is None or mod.name.startswith("mpilot.parser"):
+            continue
+        if isinstance(n, ast.Attribute) and isinstance(n.ctx, ast.Store) and n.attr == "value":
+            recv = n.value
+            selfn = K.self_name(f) if f.cls is not None else None
+            if isinstance(recv, ast.Name) and recv.id == selfn:
+                continue
+            n_arg += 1
+            ctx.violate("C20.d", "%s::raw-argument-overwritten" % f.key, mod.rel, n.lineno, "`%s = ...` replaces the raw value of an argument after construction: once a cleaned value is stored there, cleaning has altered the program (serialising it writes cleaned forms such as absolute paths or `<class 'float'>`, and a second clean starts from the cleaned value)" % K.src(n))
+    if not n_arg:
+        ctx.hold("C20.d", "mpilot/arguments.py::Argument::value-assigned-once", "mpilot/arguments.py", argcls.node.lineno, "no function stores into the `value` of an argument outside the Argument constructors", nontrivial=False)
     # ---- e
     pp = idx.cls("mpilot.params", "PathParameter").methods.get("clean")
     if pp is None:
